@@ -1,5 +1,5 @@
 #!/usr/bin/env python3
-"""Confirm sub-agent mutants in their scratch worktree, run the /verif check against each (applied to /repo, undone at once),
+"""Confirm sub-agent mutants in their scratch worktree, run the /verif check against each (in the scratch worktree, CHMPY_VERIF_REPO),
 and store the confirmed ones under /verif/seeded/<prop>-m<k>/."""
 import json, os, shutil, subprocess, sys
 
@@ -34,13 +34,12 @@ for name in sorted(os.listdir(f"{wt}/mutants")):
     print(name, "tests:", t.stdout.strip()[-40:], "| demo base rc", base_demo.returncode, "mutant rc", mut_demo.returncode, "=> confirmed" if ok else "=> REJECTED")
     if not ok:
         continue
-    # run our check with the mutant applied to /repo
-    subprocess.run(f"git -C /repo apply {d}/patch.diff", shell=True, check=True)
+    # run our check against the scratch worktree with the mutant applied (CHMPY_VERIF_REPO: /repo and /verif/evidence are not touched)
+    sh(f"git apply {d}/patch.diff")
     try:
-        c = subprocess.run(f"./check {prop} --tier quick", shell=True, cwd="/verif", capture_output=True, text=True)
+        c = subprocess.run(f"./check {prop} --tier quick", shell=True, cwd="/verif", capture_output=True, text=True, env=dict(os.environ, CHMPY_VERIF_REPO=wt))
     finally:
-        subprocess.run("git -C /repo checkout -- .", shell=True)
-        subprocess.run("git -C /verif checkout -- evidence", shell=True)
+        sh("git checkout -- src")
     viol = [l for l in c.stdout.splitlines() if l.startswith("VIOLATION")]
     k = int(name.lstrip("m")) + offset
     dest = f"/verif/seeded/{prop}-m{k}"
